@@ -21,6 +21,11 @@ def annT : List (Tok PBeat) → List (Tok PBeat)
     { data := { data := t.data.data, param := (nextParam (t :: r)).getD 0 }, first := false, last := t.last }
       :: annT r
 
+theorem annT_length (l : List (Tok PBeat)) : (annT l).length = l.length := by
+  induction l with
+  | nil => rfl
+  | cons t r ih => simp [annT, ih]
+
 /-- What the payload FIFO stores of a beat. -/
 def payOf (t : Tok PBeat) : Nat × Bool := (t.data.data, t.last)
 
